@@ -342,6 +342,8 @@ def writer_placement(ck, mod, mmax=3):
             ck.struct("w.gen.one_group_per_sample_in_order", okg, "%s: groups %s" % (tag, [g.name for g in groups]), {"attr": tag})
             if not okg:
                 continue
+            # every file the call touched is closed when the generator is exhausted (what write() returns on): the data is on disk
+            ck.struct("w.gen.files_closed_on_return", all(f.closed for f in r["files"]) and len(r["files"]) >= 1, "%s: open files at return: %s" % (tag, [f.path for f in r["files"] if not f.closed]), {"attr": tag})
             for i, g in enumerate(groups):
                 f = g.file
                 p = f.path
@@ -362,3 +364,80 @@ def writer_placement(ck, mod, mmax=3):
     for o in ck.obls:
         if o.label.startswith("w.gen") and not o.bounded:
             o.bounded = "<= %d samples per write call (sample indices, rate and cadences symbolic)" % mmax
+
+
+def bounds_and_latest(ck, mod):
+    """DigitalMetadataReader.get_bounds over a listing whose files are vanished / empty / hold groups named by decimal sample indices of
+    mixed digit counts (enumerated), and read_latest = read(last bound, ffill) (modular)."""
+    R = mod.DigitalMetadataReader
+    for nm in ("get_bounds", "read_latest"):
+        ck.add_function(pyload.source_info(mod, "DigitalMetadataReader." + nm))
+    real = {k: mod.__dict__[k] for k in ("h5py", "list_drf")}
+    real_print = mod.__dict__.get("print")
+    kinds = {"gone": None, "empty": [], "a": ["9", "10", "100"], "b": ["1000", "999"], "c": ["20000"]}
+    n = 0
+    bad = []
+    for k in range(0, 4):
+        for combo in itertools.product(sorted(kinds), repeat=k):
+            # files in time order hold ascending sample ranges: keep combinations whose non-empty key sets ascend
+            ordered = [c for c in combo if kinds[c]]
+            if ordered != sorted(ordered):
+                continue
+            files = ["/m/s/metadata@%d.h5" % i for i in range(k)]
+            content = dict(zip(files, [kinds[c] for c in combo]))
+            calls = []
+
+            class F(dict):
+                def __enter__(self):
+                    return self
+
+                def __exit__(self, *a):
+                    return False
+
+            def File(path, mode="r", **kw):
+                calls.append(("open", path, mode))
+                if content[path] is None:
+                    raise IOError("gone")
+                return F({g: object() for g in content[path]})
+
+            def ilsdrf(path, **kw):
+                calls.append(("ilsdrf", path, dict(kw)))
+                return iter(list(reversed(files)) if kw.get("reverse") else list(files))
+            mod.h5py = types.SimpleNamespace(File=File)
+            mod.list_drf = types.SimpleNamespace(ilsdrf=ilsdrf)
+            mod.__dict__["print"] = lambda *a, **k_: None
+            self_ = types.SimpleNamespace(_metadata_dir="/m")
+            try:
+                try:
+                    got = R.get_bounds(self_)
+                except IOError as e:
+                    got = "IOError"
+                except Exception as e:
+                    got = "raised %r" % (e,)
+            finally:
+                for kk, v in real.items():
+                    mod.__dict__[kk] = v
+                if real_print is None:
+                    mod.__dict__.pop("print", None)
+                else:
+                    mod.__dict__["print"] = real_print
+            n += 1
+            keys = [int(x) for c in combo if kinds[c] for x in kinds[c]]
+            want = (min(keys), max(keys)) if keys else "IOError"
+            ls = [c for c in calls if c[0] == "ilsdrf"]
+            okl = all(c[1] == "/m" and c[2].get("include_dmd", True) is True and c[2].get("include_drf", True) is False and c[2].get("recursive", True) is False
+                      and c[2].get("include_dmd_properties") in (False,) for c in ls) and [bool(c[2].get("reverse")) for c in ls] in ([False, True], [False])
+            oko = all(c[2] == "r" for c in calls if c[0] == "open")
+            if got != want or not okl or not oko:
+                bad.append((combo, got, want, okl, oko))
+    ck.enumerations.append(("dmd.bounds.scan", n, len(bad), bad[:3]))
+    ck.struct("dmd.bounds.scan", not bad, "get_bounds deviates: (files, got, expected, listing flags ok, read-only ok) %s" % (bad[:3],), {"no_input": False})
+    # read_latest
+    rec = []
+    self_ = types.SimpleNamespace(get_bounds=lambda: (5, 77), read=lambda *a, **k: (rec.append((a, k)), "RESULT")[1])
+    out = R.read_latest(self_, columns=["x"])
+    a, k = rec[0] if rec else ((), {})
+    allk = dict(zip(("start_sample", "end_sample", "columns", "method"), a))
+    allk.update(k)
+    ok = len(rec) == 1 and out == "RESULT" and allk.get("start_sample") == 77 and allk.get("end_sample") in (None, 77) and allk.get("columns") == ["x"] and allk.get("method") in ("ffill", "pad")
+    ck.struct("dmd.read_latest.reads_at_last_bound_with_ffill", ok, "read_latest called read%s" % (rec,), {})
